@@ -330,7 +330,60 @@ func init() {
 		rule("R12-request-asserts", ruleRequestAsserts).
 		rule("R12-cursor", ruleCursorVerified).
 		rule("R12-pb-nil", rulePbNil).
+		rule("R12-use-before-err", ruleUseBeforeErrCheck).
 		rule("R12-unwrap-nil", ruleUnwrapNil).
 		rule("R3-sql-origin", ruleSQLOrigin).
 		rule("R13-front-end-siblings", ruleFrontEndSiblings)
+}
+
+func init() {
+	regProp("C18",
+		[]string{
+			"the connection registry and every send/close on a listener's channel are in functions reachable only from the worker goroutine's Start; the HTTP handler goroutine only hands connections over and reads its own channel (R14)",
+			"close-then-unregister: every close of a listener's channel is followed by its removal from the registry (or happens before it was ever added), so no registered connection is ever closed — the necessary condition for never sending on a closed channel",
+			"lookup: only the addressed group is searched; an empty group is `not found`; a listener with the addressed id is preferred; a notification goes only to the exact id (R7)",
+			"Done is called exactly once per message and Done(true) only in the select arm whose non-blocking send was taken (R10); a null receiver payload is rejected instead of dereferenced (R12)",
+		},
+		[]string{"timing of sends against connection churn, buffer occupancy", "net/http's handling of the stream"}).
+		rule("R14-poll-confinement", rulePollConfinement).
+		rule("R7-poll-lookup", rulePollLookup).
+		rule("R7-poll-replace", rulePollReplace).
+		rule("R10-poll-done", func(c *Ctx) { n := 0; c.pollDoneOnce(&n) }).
+		rule("R12-decode-nil", ruleDecodeNil)
+
+	regProp("C19",
+		[]string{
+			"TagSource decides exactly: tag absent ⇒ no match; valid JSON decoding strictly into a receiver with a type ⇒ physical; other JSON ⇒ no match; anything else ⇒ logical string (R7 by path enumeration); first matching source wins; coerce accepts a physical receiver or a string",
+			"sender: logical name ⇒ configured target, else by URL scheme (http/https ⇒ http transport with that URL, poll://group/id ⇒ poll transport), physical as given; unresolvable receiver or missing plugin ⇒ error completion; plugin chosen by receiver type; message = (type, receiver data, body)",
+			"body keys type/task/href{claim,complete,heartbeat} or type/promise from this submission; hrefs formatted from exactly the task id and counter; the task created for a routed promise carries the router's receiver (R9/objects)",
+			"both decoders reject null instead of dereferencing nil (R12)",
+		},
+		[]string{"the plugins' network behaviour", "url.Parse's treatment of odd URLs"}).
+		rule("R7-decision-tables", ruleTables(tblTagSource, tblSchemeToRecv)).
+		rule("router-first-match", ruleRouterFirstMatch).
+		rule("sender-resolution", ruleSenderResolution).
+		rule("sender-poll-address", rulePollAddress).
+		rule("R9-command-provenance", ruleCmdProvenance("CreateTaskCommand", "CreatePromiseAndTaskCommand")).
+		rule("R6-object-provenance", ruleObjProvenance("SenderSubmission", "Task", "Promise")).
+		rule("R12-decode-nil", ruleDecodeNil).
+		rule("R10-exactly-once", ruleExactlyOnce)
+}
+
+func init() {
+	regProp("C20",
+		[]string{
+			"INSERT bindings and SELECT/Scan alignment: every client column is written from and read into the identically named field, in both backends (R1/R2); stored maps are written with json.Marshal and read with the plain inverse",
+			"name agreement (R16): in both front ends and in the record decoders every field of a request / API object / protobuf message is fed from the identically named station (or a listed alias)",
+			"command literals copy request fields unaltered (R9); responses and dispatched messages carry the stored record unaltered (objects)",
+			"no normalising or escaping function lies on an id or payload path (allowed sites are listed with their reason); html/template is not used; the wildcard-route id loses exactly its leading slash; derived ids embed the client id raw; time-valued fields are int64 at every station (R15/R16)",
+		},
+		[]string{"byte-level behaviour of drivers and codecs (database/sql, encoding/json base64, protobuf)", "LIKE/JSON-path semantics of search (finding F15)"}).
+		rule("R16-name-agreement", ruleNameAgreement).
+		rule("R15-no-normalisers", ruleNoNormalisers).
+		rule("R16-widths", ruleTimeoutWidth).
+		rule("R16-codecs", ruleCodecPairs).
+		rule("R15-derived-ids", ruleDerivedIdsRaw).
+		rule("R1R2-sql-spec", ruleSQLSpec(allKinds)).
+		rule("R9-command-provenance", ruleCmdProvenance("CreatePromiseCommand", "UpdatePromiseCommand", "CreateScheduleCommand", "CreateCallbackCommand", "CreateTaskCommand")).
+		rule("R6-object-provenance", ruleObjProvenance(objAll...))
 }
